@@ -70,6 +70,24 @@ func c18Term(v interface{}) T {
 		return N("bool", B(t))
 	case int64:
 		return N("int", I(t))
+	case int:
+		return N("intk", S("int"), I(int64(t)))
+	case int8:
+		return N("intk", S("int8"), I(int64(t)))
+	case int16:
+		return N("intk", S("int16"), I(int64(t)))
+	case int32:
+		return N("intk", S("int32"), I(int64(t)))
+	case uint:
+		return N("intk", S("uint"), I(int64(t)))
+	case uint8:
+		return N("intk", S("uint8"), I(int64(t)))
+	case uint16:
+		return N("intk", S("uint16"), I(int64(t)))
+	case uint32:
+		return N("intk", S("uint32"), I(int64(t)))
+	case uint64:
+		return N("intk", S("uint64"), I(int64(t)))
 	case float64:
 		return N("float", f64bits(t), S(strconv.FormatFloat(t, 'g', -1, 64)))
 	case string:
@@ -140,14 +158,65 @@ func fffdPerByte(s string) string {
 	return b.String()
 }
 
+// c18Kinded hands the writers every integer as a Go value of some integer kind that holds it (the property speaks
+// of integers, not of int64): the text and what it parses back to must not depend on the kind.
+var c18KindCounter uint64
+
+func c18Kinded(o *Out, v interface{}) interface{} {
+	switch t := v.(type) {
+	case int64:
+		var fits []interface{}
+		fits = append(fits, t)
+		if math.MinInt8 <= t && t <= math.MaxInt8 {
+			fits = append(fits, int8(t))
+		}
+		if math.MinInt16 <= t && t <= math.MaxInt16 {
+			fits = append(fits, int16(t))
+		}
+		if math.MinInt32 <= t && t <= math.MaxInt32 {
+			fits = append(fits, int32(t), int(t))
+		}
+		if 0 <= t {
+			fits = append(fits, uint64(t), uint(t))
+			if t <= math.MaxUint8 {
+				fits = append(fits, uint8(t))
+			}
+			if t <= math.MaxUint16 {
+				fits = append(fits, uint16(t))
+			}
+			if t <= math.MaxUint32 {
+				fits = append(fits, uint32(t))
+			}
+		}
+		c18KindCounter++
+		k := fits[(uint64(t)*2654435761+c18KindCounter)%uint64(len(fits))]
+		o.Count(fmt.Sprintf("integer kind=%T", k))
+		return k
+	case []interface{}:
+		out := make([]interface{}, len(t))
+		for i, x := range t {
+			out[i] = c18Kinded(o, x)
+		}
+		return out
+	case map[string]interface{}:
+		out := map[string]interface{}{}
+		for k, x := range t {
+			out[k] = c18Kinded(o, x)
+		}
+		return out
+	}
+	return v
+}
+
 func c18One(o *Out, v interface{}, indent int, sdl bool, class string) {
 	var buf bytes.Buffer
 	ggql.Sort = true
 	var err error
+	kv := c18Kinded(o, v)
 	if sdl {
-		err = ggql.WriteSDLValue(&buf, v, indent)
+		err = ggql.WriteSDLValue(&buf, kv, indent)
 	} else {
-		err = ggql.WriteJSONValue(&buf, v, indent)
+		err = ggql.WriteJSONValue(&buf, kv, indent)
 	}
 	text := buf.String()
 	rb := N("error")
@@ -178,9 +247,9 @@ func c18One(o *Out, v interface{}, indent int, sdl bool, class string) {
 	o.Count(map[bool]string{true: "sdl", false: "json"}[sdl])
 	o.Count("class=" + class)
 	o.Emit(Case{
-		Term:       N("c18", c18Term(v), I(int64(indent)), B(sdl)),
+		Term:       N("c18", c18Term(kv), I(int64(indent)), B(sdl)),
 		Obs:        N("obs", S(text), rb, jok),
-		Meta:       map[string]interface{}{"value": fmt.Sprintf("%#v", v), "text": text, "indent": indent, "sdl": sdl},
+		Meta:       map[string]interface{}{"value": fmt.Sprintf("%#v", kv), "text": text, "indent": indent, "sdl": sdl},
 		Nontrivial: v != nil,
 	})
 }
